@@ -25,37 +25,82 @@ def _get_spec(line, fi, fm):
     rng = line.split(" ")[2] if len(line.split(" ")) > 2 else ""
     return (fi.get("r"), fm.get("spec_r") if rng.startswith("tok@") else fm.get("spec_view"))
 
+def _valid_token_hex(h):
+    """independent RFC 6901 token recogniser on a hex string: no raw '/', every '~' followed by '0' or '1'"""
+    try: b = bytes.fromhex(h)
+    except ValueError: return False
+    i = 0
+    while i < len(b):
+        if b[i] == 0x2f: return False
+        if b[i] == 0x7e:
+            if i + 1 >= len(b) or b[i + 1] not in (0x30, 0x31): return False
+            i += 1
+        i += 1
+    return True
+
+def _law_enc_valid(line, fi, fm):
+    """C01 on `tok_int`: the token made from an integer is valid token text (what it spells is C18's business)"""
+    e = fi.get("enc")
+    return "ok" if e is not None and e.startswith("x") and _valid_token_hex(e[1:]) else f"FAIL(invalid_token:{e})"
+
+def _dec(v):
+    """decision only: ok(text) kept, any error collapsed (payloads belong to C14/C03/C15)"""
+    if v is None: return None
+    return "err" if v.startswith("err") else v
+
+def _decision(field):
+    return (field + ":decision", lambda line, fi, fm, f=field: (_dec(fi.get(f)), _dec(fm.get(f))))
+
+def _okerr(field):
+    """ok / err only (neither payload nor kind)"""
+    k = lambda v: None if v is None else ("ok" if v.startswith("ok") or v.startswith("some") or v == "none" else "err")
+    return (field + ":ok/err", lambda line, fi, fm, f=field: (k(fi.get(f)), k(fm.get(f))))
+
+def _locate(field):
+    """C15: the locating fields are compared only when implementation and model both report an error
+    (whether an error occurs at all is C05/C06's business)"""
+    def fn(line, fi, fm, f=field):
+        if not (fi.get("r", "").startswith("err") and fm.get("r", "").startswith("err")): return None
+        return (fi.get(f), fm.get(f))
+    return (field, fn)
+
 ACC = ["text", "toks", "encs", "count", "first", "last", "gets", "comps", "is_root", "len"]
 LOCATE = ["pos", "off", "pl", "label", "gp", "sa"]
 
 PROPS = {
  "C01": dict(
+  # C01 is about the *validity* of every value the safe API yields: each value is re-checked on the real
+  # crate by an independent recogniser (law_valid & co.); against the model only the accept/reject
+  # decisions are compared (exact texts, offsets and views are compared by C02–C04, C11–C13).
   ops={
-   "parse": dict(fields=["d1", "d2", "d3", "d4", "d5", "d6", "d7", "d8"], laws=["law_grammar"]),
-   "deser": dict(fields=["own", "bor"], laws=["law_refuse"]),
-   "tok_new": dict(fields=["enc"], laws=["law_valid"]),
-   "from_encoded": dict(fields=["r"], laws=["law_exact", "law_verbatim"]),
-   "tok_int": dict(fields=["enc"], laws=["law_decimal"]),
-   "from_tokens": dict(fields=["text", "encs"], laws=["law_valid"]),
-   "ptr_view": dict(fields=["text", "encs", "rt"], laws=["law_valid", "law_rt"]),
-   "with": dict(fields=["text"], laws=["law_valid"]),
-   "concat": dict(fields=["text"], laws=["law_valid"]),
-   "from_token": dict(fields=["text"], laws=["law_valid"]),
-   "from_usize": dict(fields=["text"], laws=["law_valid"]),
-   "buf_hist": dict(fields=["steps"], laws=["law_valid"]),
-   "split_front": dict(fields=["r"], laws=["law_valid"]),
-   "split_back": dict(fields=["r"], laws=["law_valid"]),
-   "parent": dict(fields=["r"], laws=["law_valid"]),
-   "split_at": dict(fields=["r"], laws=["law_valid"]),
-   "get": dict(fields=["r"], laws=["law_valid"]),
-   "rel": dict(fields=["sp", "ss", "ix", "ixr", "cc"], laws=["law_valid"]),
+   "parse": dict(fields=[_decision("d1"), _decision("d5"), _decision("d8")], laws=["law_grammar"]),
+   "deser": dict(fields=[_decision("own"), _decision("bor")], laws=["law_refuse"]),
+   "tok_new": dict(fields=[], laws=["law_valid"]),
+   "from_encoded": dict(fields=[_okerr("r")], laws=["law_exact", "law_verbatim"]),
+   "tok_int": dict(fields=[], laws=[("py_enc_valid", _law_enc_valid)]),
+   "from_tokens": dict(fields=[], laws=["law_valid"]),
+   "ptr_view": dict(fields=[], laws=["law_valid", "law_rt"]),
+   "with": dict(fields=[], laws=["law_valid"]),
+   "concat": dict(fields=[], laws=["law_valid"]),
+   "from_token": dict(fields=[], laws=["law_valid"]),
+   "from_usize": dict(fields=[], laws=["law_valid"]),
+   "buf_hist": dict(fields=[], laws=["law_valid"]),
+   "split_front": dict(fields=[], laws=["law_valid"]),
+   "split_back": dict(fields=[], laws=["law_valid"]),
+   "parent": dict(fields=[], laws=["law_valid"]),
+   "split_at": dict(fields=[], laws=["law_valid"]),
+   "get": dict(fields=[], laws=["law_valid"]),
+   "rel": dict(fields=[], laws=["law_valid"]),
   },
   rule="corpus + bounded-exhaustive + seeded random lines over every safe constructor/accessor/splitter/slicer/prefix-suffix op and mutator histories; a case is non-trivial when an argument contains '~', '/' or a multi-byte char",
   theorems="Jp.C01.* (validity invariant per operation, history_valid), with C02 validate_ok_iff, C03 enc_valid/fromEncoded_ok_iff, C04, C11 history_refines, C12, C13",
  ),
  "C02": dict(
   ops={
-   "parse": dict(fields=["d1", "d2", "d3", "d4", "d5", "d6", "d7", "d8"], spec=[("d1", "spec_d", ident)],
+   # decision and text per door; that the doors return the *same* ParseError is law_doors; what the
+   # offsets inside it are is C14's business
+   "parse": dict(fields=[_decision("d%d" % i) for i in range(1, 9)],
+                 spec=[lambda line, fi, fm: (_dec(fi.get("d1")), _dec(fm.get("spec_d")))],
                  laws=["law_grammar", "law_doors", "law_same_ptr"]),
    "deser": dict(fields=["own", "bor"], laws=["law_refuse"]),
   },
@@ -104,7 +149,9 @@ PROPS = {
  ),
  "C07": dict(
   twin_toml=True,
-  ops={"assign": dict(fields=["r", "doc"], laws=["law_atomic", "law_ryw", "law_frame", "law_replaced", "law_idem"])},
+  # the six laws are evaluated on the real crate; against the model only ok/err and the document
+  # afterwards are compared (error kinds and the returned value belong to C06)
+  ops={"assign": dict(fields=[_okerr("r"), "doc"], laws=["law_atomic", "law_ryw", "law_frame", "law_replaced", "law_idem"])},
   rule="as C06; the six laws are evaluated on the real crate for every case",
   exhaustive="155 tiny documents × all pointers of ≤2/≤3 tokens × 1–2 values",
   theorems="Jp.C07.atomic, read_your_write, frame, replaced_some, replaced_none, idempotent",
@@ -119,11 +166,14 @@ PROPS = {
  ),
  "C09": dict(
   ops={
-   "resolve": dict(fields=["r", "val", "pos", "off", "pl"], laws=["law_mut_same"]),
-   "resolve_mut": dict(fields=["r", "val", "pos", "off", "pl"], laws=["law_mut_same"]),
-   "write": dict(fields=["r", "doc", "rb"], laws=["law_write"]),
-   "assign": dict(fields=["r", "doc", "pos", "off", "pl"], laws=[]),
-   "delete": dict(fields=["r", "doc"], laws=[]),
+   # C09 is a relation BETWEEN implementations: it is decided by comparing the six real walks with each
+   # other on the same lines (json vs toml: `cross_backend`; resolve vs resolve_mut: law_mut_same;
+   # write-through: law_write). The tie of those walks to the model is the business of C05/C06/C08/C15.
+   "resolve": dict(fields=[], laws=["law_mut_same"]),
+   "resolve_mut": dict(fields=[], laws=["law_mut_same"]),
+   "write": dict(fields=[], laws=["law_write"]),
+   "assign": dict(fields=[], laws=[]),
+   "delete": dict(fields=[], laws=[]),
   },
   cross_backend=["r", "val", "pos", "off", "pl", "doc", "rb", "label"],
   rule="every case is run through all six walks on both backends (same arguments, consecutive lines) and compared with the one model and json-vs-toml with each other; non-trivial as C05",
@@ -179,9 +229,9 @@ PROPS = {
  "C15": dict(
   twin_toml=True,
   ops={
-   "resolve": dict(fields=["r"] + LOCATE, laws=["law_locate"]),
-   "resolve_mut": dict(fields=["r"] + LOCATE, laws=["law_locate"]),
-   "assign": dict(fields=["r"] + LOCATE, laws=["law_locate"]),
+   "resolve": dict(fields=[_locate(f) for f in LOCATE], laws=["law_locate"]),
+   "resolve_mut": dict(fields=[_locate(f) for f in LOCATE], laws=["law_locate"]),
+   "assign": dict(fields=[_locate(f) for f in LOCATE], laws=["law_locate"]),
   },
   rule="seeded random documents (depth ≤4) with pointers that mostly fail at a random depth, escaped/empty/multi-byte tokens before the failing one, json and toml; non-trivial as C05",
   theorems="Jp.C15.resolve_err_locates, resolveMut_err_locates, assign_err_locates, resolve_payload, assign_payload, label_covers_token",
